@@ -266,10 +266,11 @@ def _mk(seq, **kw):
 
 FIXED = [
     _mk('PEKTIDEK', labile=[['Glycan:Hex1', 1]], nterm=[['Acetyl', 1]], cterm=[['Amidated', 1]], internal=[[1, [['Phospho', 1]]], [3, [['+1.5', 2]]]],
-        charge=2),
+        intervals=[[5, 7, False, [['+7.25', 1], ['Methyl', 1]]]], charge=2),
     _mk('KPSTDK', labile=[['+100', 1]], nterm=[['+1', 1], ['Formula:C2', 1]], cterm=[['-2', 1]], internal=[[0, [['Methyl', 1]]], [5, [['Acetyl', 1], ['1', 1]]]],
         static=[[[['Carbamidomethyl', 1]], ['C', 'K']]], isotope=['13C'], charge=3, adducts='+2Na+,+H+'),
-    _mk('SKTPDKRA', labile=[['Phospho', 2]], nterm=[['Acetyl', 1]], cterm=[['Methyl', 1]], static=[[[['+10', 1]], ['N-Term', 'S']]], charge=1),
+    _mk('SKTPDKRA', labile=[['Phospho', 2]], nterm=[['Acetyl', 1]], cterm=[['Methyl', 1]], static=[[[['+10', 1]], ['N-Term', 'S']]],
+        unknown=[['+3.5', 1]], intervals=[[3, 5, True, [['Oxidation', 1]]]], charge=1),
     _mk('AKDPKST', labile=[['Hex', 1]], unknown=[['Oxidation', 1]], nterm=[['+42.0', 1]], cterm=[['+1', 1]], internal=[[2, [['+3', 1]]]],
         intervals=[[3, 5, True, [['+7', 1]]]], charge=2),
     _mk('MKPEKDS', nterm=[['Acetyl', 1]], internal=[[0, [['Oxidation', 1]]]]),
@@ -493,7 +494,7 @@ def container_strategy():
 
 
 def parts(tier):
-    n_annot = 3 if tier == 'quick' else len(FIXED)
+    n_annot = 5 if tier == 'quick' else len(FIXED)
     n = 1500 if tier == 'quick' else 20000
     nreg = len(registry())
     return [
